@@ -333,6 +333,18 @@ func (x *Exec) applyContract(st *State, fr *Frame, c *callCtx, ct *Contract) {
 		st.assume(t)
 	}
 	x.usedContracts[ct.Key] = true
+	if rd := ct.Directives["records"]; rd != nil {
+		var as []TV
+		for i, p := range fn.Params {
+			if i < len(c.args) {
+				as = append(as, TV{c.args[i], p.Type()})
+			}
+		}
+		for i := 0; i < sig.Len(); i++ {
+			as = append(as, TV{nil, sig.At(i).Type()})
+		}
+		st.rec = append(append([]recordedCall(nil), st.rec...), recordedCall{Name: strings.TrimSpace(rd[0]), Args: as, Results: results})
+	}
 	var rv Value
 	if len(results) == 1 {
 		rv = results[0]
